@@ -15,7 +15,8 @@ def run(ctx):
                     "compared with ';' or '=' conflates characters congruent mod 256); R2 every CharacterString construction outside "
                     "into_owned / parse is dominated by len <= 255 (internal_new) - parse takes the length from a wire byte; R3 the "
                     "chunk size used to split text is a constant in 1..=254; R4 String::try_from(TXT) appends every string's bytes once, "
-                    "in order.")
+                    "in order; R5 in TXT::attributes and TXT::long_attributes every split at '=' is bounded to two pieces "
+                    "(splitn(2, ..) / split_once), every split at ';' is unbounded, and no other separator is used.")
     roots = []
     for q in ["simple_dns::TXT::attributes", "simple_dns::TXT::long_attributes", "simple_dns::<TXT as TryFrom<&str>>::try_from",
               "simple_dns::<TXT as TryFrom<HashMap<String, Option<String>>>>::try_from", "simple_dns::<String as TryFrom<TXT>>::try_from",
@@ -137,6 +138,63 @@ def run(ctx):
             report.nontriv("join")
         else:
             viol(report, "C19-R4", sf, "join", "String::try_from(TXT) is not a fold over the strings (in order) that appends each string's bytes once")
+    # ---- R5 separators
+    for q, want_semi in (("simple_dns::TXT::attributes", 0), ("simple_dns::TXT::long_attributes", 1)):
+        fb = prog.find(q)
+        if fb is None:
+            continue
+        fam = [fb] + [x for x in prog.bodies.values() if x.kind == "Closure" and x.root == fb.id]
+        n_eq = n_semi = 0
+        for x in fam:
+            xdefs = mu.defs_of(x)
+            for bi, t in mu.calls(x, r"(<impl str>|<impl \[T\]>)::(r?splitn?|split_once|rsplit_once|split_terminator|split_inclusive|split_at)$"):
+                name = t["callee"]["name"]
+                report.count()
+                seps = set()
+                bound = None
+                for a in t["args"][1:]:
+                    if a["o"] == "const" and a["k"].get("c") == "int":
+                        ty = x.ty(a["k"]["t"])
+                        if ty["k"] == "char" or (ty["k"] == "int" and ty.get("w") == 8 and name in ("split_once",)):
+                            seps.add(int(a["k"]["v"]))
+                        else:
+                            bound = int(a["k"]["v"])
+                        continue
+                    l = mu.op_local(a)
+                    d = mu.single_def(xdefs, l) if l is not None else None
+                    if d is not None and d[1] != "term" and d[2].get("k") == "agg" and d[2].get("ak") == "closure":
+                        cb = prog.bodies.get(d[2]["def"])
+                        for bl in cb.blocks if cb is not None else []:
+                            for s2 in bl["stmts"]:
+                                if s2["s"] == "assign" and s2["rv"]["k"] == "bin" and s2["rv"]["op"] in ("Eq", "Ne"):
+                                    for side in ("a", "b"):
+                                        o = s2["rv"][side]
+                                        if o["o"] == "const" and o["k"].get("c") == "int":
+                                            seps.add(int(o["k"]["v"]))
+                sn = t["sp"].get("sn") or name
+                if not seps or name == "split_at":
+                    viol(report, "C19-R5", x, "separator", "cannot tell which separator `%s` splits at" % sn, sn)
+                    continue
+                for sep in sorted(seps):
+                    if sep == 61:
+                        n_eq += 1
+                        if (name == "splitn" and bound == 2) or name == "split_once":
+                            report.nontriv("eq-split:" + x.qname)
+                        else:
+                            viol(report, "C19-R5", x, "eq-split", "`%s` splits an entry at every '=' (or from the wrong end): a value that itself "
+                                 "contains '=' is cut short; only the first '=' separates key and value" % sn, sn)
+                    elif sep == 59 and want_semi:
+                        n_semi += 1
+                        if name in ("split", "split_terminator"):
+                            report.nontriv("semi-split:" + x.qname)
+                        else:
+                            viol(report, "C19-R5", x, "semi-split", "`%s` does not split at every ';': later entries are merged or dropped" % sn, sn)
+                    else:
+                        viol(report, "C19-R5", x, "separator", "`%s` splits at %r; attributes are separated only at ';' (long form) and the "
+                             "first '='" % (sn, chr(sep)), sn)
+        report.floor("'=' splits in %s" % q.split("::")[-1], n_eq, 1)
+        if want_semi:
+            report.floor("';' splits in %s" % q.split("::")[-1], n_semi, 1)
     report.assumptions += ["the attribute-map round trip (absent vs empty, first-wins) is value-level and not decided",
                            "the out-of-crate half of R2 is the privacy of CharacterString's field (pub(crate)), checked by the compiler"]
     return report.finish()
